@@ -19,7 +19,7 @@ REQUIRED = ["next_owner", "bounded_wait", "released_transitions", "ownership_cha
 
 
 def n_cases(tier):
-    return 240 if tier == "quick" else 3600
+    return 480 if tier == "quick" else 6000
 
 
 def gen_case(rng, tier, idx):
